@@ -232,7 +232,7 @@ func getECDSAAlgorithm(keySize int) httpsig.SignatureAlgorithm {
 		return httpsig.EcdsaP256Sha256
 	case 384: //nolint: mnd
 		return httpsig.EcdsaP384Sha384
-	case 512: //nolint: mnd
+	case 512, 521: //nolint: mnd
 		return httpsig.EcdsaP521Sha512
 	default:
 		panic(fmt.Sprintf("unsupported ECDSA key size: %d", keySize))
